@@ -59,6 +59,20 @@ Theorem has_missing_data_exact : forall par fuel t v N s,
   length g = length (v_samples v) /\ (hm = true <-> exists k, get g k = Ok MISSING).
 Proof. exact has_missing_data_exact_l. Qed.
 
+(* (a)+(b) in one statement: on a forest of bounded height every requested node gets MISSING
+   exactly under the missing-data condition and otherwise the first index of the rule's state. *)
+Theorem decode_follows_rule : forall par fuel t v N h s,
+  tree_rep par fuel t v N -> muts_in_range N s -> order_ok par (s_mutations s) ->
+  (forall u, depth_le par h u) ->
+  forall g al hm, decode fuel t v s = Ok (g, al, hm) ->
+  forall k u, get (v_samples v) k = Ok u ->
+  exists r, nearest par (s_mutations s) u r /\
+    let missing := v_impute v = false /\ isolated par u /\ has_mut_on (s_mutations s) u = false in
+    (missing /\ get g k = Ok MISSING) \/
+    (~ missing /\ get g k = Ok (allele_index al (state_of (s_ancestral s) r)) /\
+     get al (allele_index al (state_of (s_ancestral s) r)) = Ok (state_of (s_ancestral s) r)).
+Proof. exact decode_follows_rule_l. Qed.
+
 (* (c) Without a user allele list the returned alleles are the ancestral state followed by the
    derived states in order of first occurrence: alleles[0] is the ancestral state, no
    duplicates.  No hypothesis about the tree is needed. *)
@@ -152,3 +166,17 @@ Theorem alignment_rows : forall left pos, NoDup pos -> forall rows a out,
   forall i h, get rows i = Ok h ->
   exists row, get out i = Ok row /\ PyViews.overwrite a left pos h = Ok row.
 Proof. exact alignment_rows_l. Qed.
+
+(* Variant.counts(): finding C03-counts-duplicate-user-alleles.  With a duplicate in the user
+   allele list (documented as allowed) the Counter reports 0 carriers for an allele that one
+   sample carries; without duplicates every allele gets the number of genotypes equal to its
+   index. *)
+Theorem counts_duplicate_refuted :
+  exists (r : decode_result) (a : allele),
+    PyViews.carriers r a = 1 /\ PyViews.dict_get (PyViews.counts_model r) (Some a) = Some 0.
+Proof. exact counts_duplicate_refuted_w. Qed.
+
+Theorem counts_without_duplicates : forall g al hm i a,
+  NoDup al -> get al i = Ok a ->
+  PyViews.dict_get (PyViews.counts_model (g, al, hm)) (Some a) = Some (PyViews.count_eq g i).
+Proof. exact counts_without_duplicates_l. Qed.
